@@ -559,7 +559,11 @@ class TreeMapView(Mapping[TreeMapKey, LeafValueT]):
             data = self._set_by_path(data, key, value, in_place)
       case _:
         data = self._set_by_path(self.data, Key.new(keys), values, in_place)
-    return self if in_place else dataclasses.replace(self, data=data)
+    if in_place:
+      # The root itself may be new (empty view, SELF / Key() replacement).
+      self.data = data
+      return self
+    return dataclasses.replace(self, data=data)
 
   def __setitem__(self, keys: TreeMapKey | TreeMapKeys, values: Any):
     self.set(keys, values)
